@@ -82,7 +82,7 @@ CHECKS = {
              "earlier deep or failed recursions) must succeed up to 255 nested calls and raise the recursion-limit error at the 256th, and LeakSanitizer "
              "must be silent after histories containing failing calls."
              ' Added: calls nested in their own argument lists in the call alphabets, the same callee reached at several nesting levels, recursion-limit probes below k+1 levels of another function after earlier calls at other levels.'
-             ' Calls as the operand of a program-level return; a function defined again after its earlier definition was called (6 x 6 bodies x 4 histories); error@1 outside handlers after a call whose handler raised; a built-in that fails at the second evaluation of an argument. Round 5: a redefinition arriving in a text that calls the function first, or that is rejected; arguments of one call that change each other\'s variables. Round 6: trace mode switched on by one call and locals re-typed by the branch a call took are gone for the next call; the error stream is compared too. Round 7: unset locals left null with another type by an earlier call; unset locals used by in-place built-ins in the first call of each depth.',
+             ' Calls as the operand of a program-level return; a function defined again after its earlier definition was called (6 x 6 bodies x 4 histories); error@1 outside handlers after a call whose handler raised; a built-in that fails at the second evaluation of an argument. Round 5: a redefinition arriving in a text that calls the function first, or that is rejected; arguments of one call that change each other\'s variables. Round 6: trace mode switched on by one call and locals re-typed by the branch a call took are gone for the next call; the error stream is compared too. Round 7: unset locals left null with another type by an earlier call; unset locals used by in-place built-ins in the first call of each depth. Round 8: locals of every container type, each assigned by some calls only (a reused context hands them out unset, not emptied).',
         note="trusted: hand-written expected value per call, LeakSanitizer; histories longer than the bound are not covered",
         design="DESIGN.md section 4, C08"),
     "C10": dict(
@@ -203,7 +203,7 @@ CHECKS = {
              "orders (length <=5 / <=6) of clone, run in clone, run in original, purge original, free original, free clone, free executable are run "
              "against a sequential model under ASan."
              ' Added: programs reading clone-inherited variables as operands and `matches` with per-clone patterns; the sequential run in clones is compared with runs in contexts that were never cloned; the valid programs of the C01 corpus at 2 threads (bound 1 / 2) and under ThreadSanitizer.'
-             ' The orders program includes a source file (the included statements must run in the executing context). Round 6: programs in which every clone copies, stores and drops references to module objects inherited from the original (reference counter under TSan).',
+             ' The orders program includes a source file (the included statements must run in the executing context). Round 6: programs in which every clone copies, stores and drops references to module objects inherited from the original (reference counter under TSan). Round 8: a program with overloaded functions compiled in the original and run in the clones; every access to the object reference counter (load, store, read-modify-write) is a scheduling point of its own.',
         note="trusted: sufficiency of the instrumented points (checked by the TSan pass, not assumed); weak memory orderings are not modelled; more than 3 threads only in the TSan pass",
         design="DESIGN.md section 4, C14"),
     "C16": dict(
@@ -235,7 +235,7 @@ CHECKS = {
              "has exactly one destroy event. Ten programs offer a vmod2 object where vmod was compiled; no method or constructor of one module may run "
              "on an object of the other."
              ' Added: 11 carriers of a foreign object x 10 uses; loops refused at entry or dying in their body; 15 scripts + 4 interactive sessions through the bloc command (file, stdin, --out, -i) with every object destroyed exactly once by process end.'
-             ' Statements that return an object to a host that never collects it; the module logs foreign objects received as arguments; containers are checked against the module their type names. Re-evaluation of one use site with vmod then vmod2 objects (function with untyped parameter, loop over an undefined result); one statement with n object temporaries for 23 sizes up to 513 in 5 shapes. Round 5: a method storing a new object into its own receiver variable (INOUT object argument); a callee that raises while holding objects. Round 6: in-place members on tables / tuples built on the fly that take the object of a variable; forall over an element of a table variable. Round 7: a method returning another object on a temporary receiver; forall over a temporary table of objects.',
+             ' Statements that return an object to a host that never collects it; the module logs foreign objects received as arguments; containers are checked against the module their type names. Re-evaluation of one use site with vmod then vmod2 objects (function with untyped parameter, loop over an undefined result); one statement with n object temporaries for 23 sizes up to 513 in 5 shapes. Round 5: a method storing a new object into its own receiver variable (INOUT object argument); a callee that raises while holding objects. Round 6: in-place members on tables / tuples built on the fly that take the object of a variable; forall over an element of a table variable. Round 7: a method returning another object on a temporary receiver; forall over a temporary table of objects. Round 8: the function whose cached context holds an object is defined again by a later text.',
         note="trusted: the holder model; late destruction (before release) is allowed by the property and not flagged",
         design="DESIGN.md section 4, C17"),
     "C18": dict(
@@ -287,7 +287,7 @@ CHECKS = {
              "single-token corruptions) is parsed through bloc_parse_executable and bloc_parse_expression, the context must still run a valid program, "
              "and no memory may remain after release."
              ' Added to the alphabet: host updates of a variable through its loaded pointer (assign literal / tabchar / null) followed by scripts reading it twice, handler-raises and forall-error executables, a tuple variable re-typed by a parse that is not executed, a table symbol registered by the host, trace flag and version calls.'
-             ' A parse error inside every kind of block (while, forall, if, else, begin, handler, function body, nested, empty while body) followed by a function definition. Invariant on every inspected value, including the caller\'s value after store_variable: a null value yields NULL data from every accessor that succeeds. Round 5: a symbol registered again with another type (5 x 4 type pairs x 5 things in between); life of evaluated values of every expression kind after the expression is freed; every operator with 11 x 11 operand kinds as rejected text. Round 6: refused stores leave the caller\'s value untouched; storing a variable\'s own value into another variable copies it.',
+             ' A parse error inside every kind of block (while, forall, if, else, begin, handler, function body, nested, empty while body) followed by a function definition. Invariant on every inspected value, including the caller\'s value after store_variable: a null value yields NULL data from every accessor that succeeds. Round 5: a symbol registered again with another type (5 x 4 type pairs x 5 things in between); life of evaluated values of every expression kind after the expression is freed; every operator with 11 x 11 operand kinds as rejected text. Round 6: refused stores leave the caller\'s value untouched; storing a variable\'s own value into another variable copies it. Round 8: caller-owned scalars (boolean, integer, decimal and their nulls) stored twice are copies: the caller`s value is inspected before and after.',
         note="trusted: the handle/ownership model in vf/props/c15.py; ASan/LSan of clang 14 (a g++-only leak found by reading is recorded as fixed)",
         design="DESIGN.md section 4, C15"),
 }
